@@ -434,3 +434,50 @@ def check_cleared_before_partial(res, db, entries, table) -> int:
         sample={"function": fn, "field": k, "first_partial_writer": l0.ev.name} if n % 8 == 1 else None,
       )
   return n
+
+
+# ------------------------------------------------------------------------------------------------ R-LIVE.8
+def check_fresh_rows_not_read(res, db, lcs) -> int:
+  """R-LIVE.8: a constraint row / contact slot obtained from an atomic counter (`efcid = atomic_add(nefc, ...)`,
+  `cid = atomic_add(nacon, ...)`) still holds the record of whatever occupied it in an earlier step. A kernel may only
+  read a cell of that row after it has written it itself; any other read consumes left-over data (stale type/id/J of a
+  previous evaluation), so the step is not a function of the integration state."""
+  from ..report import Finding
+  from ..terms import T, show, subterms
+  from .world import array_key
+
+  n = 0
+  seen = set()
+  for lc in lcs:
+    ats = {a.uid: array_key(lc, a.root) for a in lc.keval.accesses if a.kind == "atomic_add" and a.ret_used and array_key(lc, a.root) in ("Data.nefc", "Data.nacon")}
+    if not ats or lc.name in seen:
+      continue
+    seen.add(lc.name)
+    written = set()
+    k_reads = 0
+    for a in lc.keval.accesses:
+      if not a.idx:
+        continue
+      key = array_key(lc, a.root)
+      if not (key.startswith("Data.efc.") or key.startswith("Data.contact.")):
+        continue
+      if not any(isinstance(ix, T) and any(s.op == "at" and s.args[0] in ats for s in subterms(ix)) for ix in a.idx):
+        continue
+      sig = (key, tuple(a.idx))
+      if a.is_write:
+        written.add(sig)
+      elif a.kind == "r":
+        k_reads += 1
+        res.ob(
+          sig in written,
+          f"{lc.name}|{key}|fresh-row-read|{a.loc.rsplit(':', 1)[-1]}",
+          Finding(
+            "R-LIVE.8",
+            f"{lc.name}|{key}|read-of-freshly-allocated-row",
+            f"`{a.root}[{', '.join(show(i)[:30] for i in a.idx)}]` is read at a row/slot this thread has just allocated from the counter and has not written yet: the cell still holds the record of an earlier step",
+            a.loc,
+          ),
+        )
+    n += 1
+    res.ob(True, f"{lc.name}|allocates-rows|reads-own-fresh-cells={k_reads}")
+  return n
